@@ -500,6 +500,8 @@ package graphql
 //@ func PlanCache.Get
 //@   props C06 C12
 //@   nosafety
+//@   opt invoke.Write=pure
+//@   opt invoke.Sum64=pure
 //@   requires c == nil || (c.entries != nil && c.order != nil && c.order.len >= 0 && !held(&c.mu))
 //@   at return: assert c == nil ==> calls("lookup") == 0 && calls("store") == 0
 //@   at[C06,C12] call lookup: assert arg1 == schema && len(arg2) >= len(operationName) + 1 && (forall i in 0..len(operationName): arg2[i] == operationName[i]) && arg2[len(operationName)] == 0
